@@ -43,3 +43,10 @@ func VerifIsHalted(s *BridgeSync) bool { return s.processor.isHalted() }
 
 // VerifClose closes the store.
 func VerifClose(s *BridgeSync) error { return s.processor.db.Close() }
+
+// VerifNewDriver builds the real EVMDriver around the facade's real processor with caller-supplied
+// reorg detector, downloader and retry handler.
+func VerifNewDriver(s *BridgeSync, rd sync.ReorgDetector, dl sync.Downloader, bufferSize int,
+	rh *sync.RetryHandler) (*sync.EVMDriver, error) {
+	return sync.NewEVMDriver(rd, s.processor, dl, "verif", bufferSize, rh, false)
+}
